@@ -64,7 +64,7 @@ pub struct Res {
     pub conv: Value,
 }
 pub fn no_conv() -> Value {
-    json!({"has": 0, "vlan_ids": [], "vlan": [], "epay": no_pay(), "ipay": no_pay(), "pet": -2, "frag": -2})
+    json!({"has": 0, "vlan_ids": [], "vlan": [], "epay": no_pay(), "ipay": no_pay(), "pet": -2, "frag": -2, "mism": []})
 }
 fn vlan_conv(ids: &[VlanId], v: Option<(i64, i64, i64)>) -> (Vec<i64>, Vec<i64>) {
     (ids.iter().map(|x| x.value() as i64).collect(), match v { None => vec![0, -1, -1], Some((n, a, b)) => vec![n, a, b] })
